@@ -59,6 +59,12 @@ CHECKS = {
  "C14": ("exploration", E2,
          "For every tree of the stated universes x shape mode (declared / estimated) x leaf default {0,7} x every format assignment in {C,U}^depth x mutable hint, every transform of C08/C09 with every parameter choice is checked for documented rank-id renaming, re-arranged authoritative shape, carried leaf default / per-rank formats / mutable hint, every stored coordinate inside reported shape and active range (iterActive == iterOccupancy); every lazy result of & | ^ - <<, intersection, union, prune, coiter*, project for rank id and active range; unowned fibers with own attributes joining a tensor via fromFiber/setRoot must report the rank's attributes.",
          "Trusted: the carry-over oracle mc/ref_c14.py fixed by the survey probes q14/q25; with estimated shapes nothing is demanded of the authoritative shape.", "DESIGN.md §3 C14"),
+ "C08": ("exploration", E2,
+         "Every fiber of F1(N) (N<=5, thorough 6) x {default range, declared shape, every active range} x splitUniform (every step, halos 0..2, relativeCoords), splitNonUniform (every strictly increasing split list), splitEqual, splitUnEqual (every composition), / k and // k, a non-zero-default family, the same at every split depth of T2/T3 trees through four call forms (Fiber depth=, Tensor depth=, Tensor rankid=, owned root rankid=) and nested re-splits with the tiling clause; the raw structure of the result (upper coordinates, each lower fiber's coordinates, payload values and active range) is compared with a partition specification recomputed from the sorted element list.",
+         "Trusted: the partition oracle (ported from probes q1/q2, 2.9 M calibration cases; agrees with all 57 split calls of the passing test_fiber_split.py tests); for relativeCoords=True a partition's active range is read in the partition's own coordinates.", "DESIGN.md §3 C08"),
+ "C17": ("exploration", E2,
+         "Synthetic well-formed traces written directly as CSV (1-3 loop ranks, up to 8 accesses over up to 4 lines, reads / writes / read+write, writes inside and beyond the shape, line sizes 1 and 2, every capacity 0..lines+1 and unbounded, one and two bindings with evict-on root or an outer rank) are run through the real buffetTraffic / cacheTraffic; the buffet result is compared exactly with the (line, eviction-window) rule; cache fills on read traces are compared exactly with the optimum found by an exhaustive memoised search over (trace index, resident line set) with bypass (E3: 2.8 M states per quick run); read+write cache traces against the derived bounds; filterTrace and _combineTraces against row filters / stable merges; directory listings before and after every call.",
+         "Trusted: the window-rule oracle and the E3 search in mc/ref_c17.py; overflow counts, cache write-backs and own-rank evict-on are outside the statement and not compared.", "DESIGN.md §3 C17"),
  "C04": ("exploration", E2,
          "Every ordered pair / k-tuple of fibers of the stated small universes (leaf, sub-fiber, tuple-coordinate, mixed-arity, uncompressed-format and n-ary families) is run through the real operators and compared with set algebra, payload identity, mask and freshness oracles; operands and owning tensors are snapshotted before and after. Exhaustive within the bounds, which contain every relative order of the last elements of both operands and every explicit-default placement.",
          "Trusted: the harness's construction of operands through Fiber()/Tensor.fromFiber and raw reads of coords/payloads; nothing is claimed beyond N<=7 coordinates, depth 2, k<=4.", "DESIGN.md §3 C04"),
